@@ -16,11 +16,15 @@ def run(patch):
             return patch, None, "patch does not apply: " + p.stderr[-200:]
         shutil.copy(os.path.join(HERE, "known_findings.json"), d + "/verif")
         res = {}
+        # one process, one loaded program, every registered check in turn
+        c = subprocess.run([os.environ.get("SLOCKCHECK_BIN", os.path.join(HERE, "bin/slockcheck")), "-repo", d + "/repo", "-verif", d + "/verif", "-property", ",".join(props)], env=ENV, capture_output=True, text=True)
+        rcs = dict(re.findall(r"^RESULT property=(C\d+) rc=(\d+)$", c.stdout, re.M))
+        if len(rcs) != len(props):
+            return patch, None, "checker did not report every property: " + c.stdout[-300:] + c.stderr[-300:]
         for prop in props:
-            c = subprocess.run([os.environ.get("SLOCKCHECK_BIN", os.path.join(HERE, "bin/slockcheck")), "-repo", d + "/repo", "-verif", d + "/verif", "-property", prop], env=ENV, capture_output=True, text=True)
-            if c.returncode != 0:
-                lines = [l for l in c.stdout.splitlines() if re.search(r"\[C\d+/R|CHECKER-FAILURE|panic", l)]
-                res[prop] = (c.returncode, lines[:6])
+            if rcs[prop] != "0":
+                lines = [l for l in c.stdout.splitlines() if re.search(r"\[%s/R|CHECKER-FAILURE property=%s|panic" % (prop, prop), l)]
+                res[prop] = (int(rcs[prop]), lines[:6])
         return patch, res, ""
     finally:
         shutil.rmtree(d, ignore_errors=True)
